@@ -4,6 +4,7 @@ SPEC = {
         {"name": "c10a", "pkg": "./zz_verif/c10a", "run": "^Test", "shards": {"quick": 1, "thorough": 16}},
         {"name": "c10b", "pkg": "./zz_verif/c10b", "run": "^Test", "shards": {"quick": 1, "thorough": 16}},
         {"name": "c10fuzz", "pkg": "./zz_verif/c10", "fuzz": "FuzzC10", "fuzztime": "60s", "tiers": ["thorough"], "shards": {"thorough": 1}},
+        {"name": "c10bfuzz", "pkg": "./zz_verif/c10b", "fuzz": "FuzzC10", "fuzztime": "60s", "tiers": ["thorough"], "shards": {"thorough": 1}},
         {"name": "c10afuzz", "pkg": "./zz_verif/c10a", "fuzz": "FuzzC10", "fuzztime": "60s", "tiers": ["thorough"], "shards": {"thorough": 1}},
     ],
     "rule": "case = (decoding entry point, input) where the input is a format-aware mutation of a valid encoding (bit flip, every-prefix truncation, appended bytes, overwritten windows, "
